@@ -1403,8 +1403,13 @@ def generate(unit_dir, vacuity=False, mutate=None):
                     head_lines = (lines, tl)
                 elif kind == 'tail':
                     tail_lines = (lines, tl)
+                    if d == 'fn':
+                        # end of the function body (only sound as a place for proof text when the body has no tail expression)
+                        inserts.append((body_close, lines, tl))
                 elif kind == 'prologue':
                     prologue_lines = (lines, tl)
+                    if d == 'fn':
+                        inserts.append((body_open + 1, lines, tl))
                 elif kind == 'loop':
                     optional = arg.endswith('optional')
                     am = re.match(r'(\d+)(?:\s+iter=(\w+))?', arg)
